@@ -65,12 +65,18 @@ def post_selections(nv):
         p = lw.PostSelection(); p.add(0, (1, 2)); return p
     out = [("none", lambda: None), ("rule(0:(1,2))", rule),
            ("predicate", lambda: (lambda s: s[nv - 1] == 0))]
+    if nv >= 3:
+        def far():       # one rule over two modes that are not neighbours
+            p = lw.PostSelection(); p.add((0, nv - 1), (0, 1)); return p
+        out.append(("rule((0,last):(0,1))", far))
     return out
 
 
 def ps_ok(ps, vis):
     if ps is None:
         return True
+    if hasattr(ps, "rules"):          # the stated meaning of a rule set, not the library's evaluation of it
+        return all(sum(vis[m] for m in modes) in counts for modes, counts in (r.as_tuple() for r in ps.rules))
     if hasattr(ps, "validate"):
         return bool(ps.validate(lw.State(list(vis))))
     return bool(ps(lw.State(list(vis))))
